@@ -129,8 +129,48 @@ def assign_ids(S):
                 f['id'] = i; i += 1
 
 
+INT_RANGE = {'byte': (-128, 127), 'ubyte': (0, 255), 'short': (-32768, 32767), 'ushort': (0, 65535), 'int': (-2**31, 2**31 - 1),
+             'uint': (0, 2**32 - 1), 'long': (-2**63, 2**63 - 1), 'ulong': (0, 2**64 - 1)}
+
+
+def gen_enum(rng, name, style=None):
+    """an enum AST: {'name', 'type', 'bit_flags', 'members': [(symbol, value)]} with at least 3 members in ascending order"""
+    ty = rng.choice(list(INT_RANGE))
+    lo, hi = INT_RANGE[ty]
+    style = style or rng.choice(['dense0', 'dense0', 'dense1', 'sparse', 'negative', 'bit_flags', 'top'])
+    n = rng.randint(3, 7)
+    if style == 'bit_flags':
+        ty = rng.choice(['ubyte', 'ushort', 'uint', 'ulong', 'byte', 'int'])
+        width = SCALARS[ty] * 8
+        bits = sorted(rng.sample(range(width), min(n, width)))
+        if rng.random() < 0.3: bits = list(range(min(n, width)))
+        return {'name': name, 'type': ty, 'bit_flags': True, 'members': [('%s_b%d' % (name, b), b) for b in bits]}
+    if style == 'dense0': vals = list(range(n))
+    elif style == 'dense1': vals = list(range(1, n + 1))
+    elif style == 'sparse': vals = sorted(rng.sample(range(0, min(hi, 120)), n))
+    elif style == 'negative' and lo < 0: vals = sorted(rng.sample(range(max(lo, -100), 20), n))
+    elif style == 'top': vals = list(range(hi - n + 1, hi + 1))
+    else: vals = list(range(n))
+    return {'name': name, 'type': ty, 'bit_flags': False, 'members': [('%s_m%d' % (name, i), v) for i, v in enumerate(vals)]}
+
+
+def enum_values(e):
+    """numeric values of the members (bit_flags: the single-bit values)"""
+    if not e['bit_flags']: return [v for _, v in e['members']]
+    lo, hi = INT_RANGE[e['type']]
+    out = []
+    for _, b in e['members']:
+        v = 1 << b
+        if v > hi: v -= (hi - lo + 1)
+        out.append(v)
+    return out
+
+
 def render_fbs(S):
     o = []
+    for e in S.get('enums', []):
+        o.append('enum %s : %s%s { %s }' % (e['name'], e['type'], ' (bit_flags)' if e['bit_flags'] else '',
+                                            ', '.join('%s = %d' % (n, v) for n, v in e['members'])))
     for nm in S['struct_order']:
         st = S['structs'][nm]
         o.append('struct %s%s { %s }' % (nm, ' (force_align: %d)' % st['force_align'] if st['force_align'] else '',
@@ -145,7 +185,9 @@ def render_fbs(S):
         for f in t['fields']:
             k, ty = f['kind'], f.get('type')
             attrs = []
-            if k == 'scalar': tx = ty + (' = ' + default_literal(ty, f['default']) if 'default' in f else '')
+            if k == 'scalar' and f.get('enum'): tx = f['enum'] + ' = ' + f['default_symbol']
+            elif k == 'vec_scalar' and f.get('enum'): tx = '[%s]' % f['enum']
+            elif k == 'scalar': tx = ty + (' = ' + default_literal(ty, f['default']) if 'default' in f else '')
             elif k == 'struct': tx = ty
             elif k == 'string': tx = 'string'
             elif k == 'vec_scalar': tx = '[%s]' % ty
@@ -268,8 +310,27 @@ def evolve_pair(rng, **kw):
     `deprecated` marks cleared (i.e. B extends A by appending fields, appending union members and deprecating
     non-required fields)."""
     import copy
+    nenums = kw.pop('nenums', 0)
     B = gen_schema(rng, **kw)
+    # enums (permitted evolution: new enum values at the end): every enum of B keeps a proper prefix in A; enum-typed fields
+    # default to a member both versions have
+    # the first enum always counts up from zero and keeps at least two members in A (name-table printers), the others are random
+    B['enums'] = [gen_enum(rng, 'E%d' % i, 'dense0' if i == 0 else None) for i in range(nenums)]
+    keep = {e['name']: rng.randint(2 if i == 0 else 1, len(e['members']) - 1) for i, e in enumerate(B['enums'])}
+    for e in B['enums']: e['first_new'] = keep[e['name']]       # index of the first member the older version lacks (value generator aims at it)
+    for tb in B['tables']:
+        for ei, e in enumerate(B['enums']):
+            if ei == 0 or rng.random() < 0.7:
+                sym, val = e['members'][rng.randrange(keep[e['name']])]
+                tb['fields'].insert(rng.randint(0, len(tb['fields'])),
+                                    {'name': 'e%d_%s' % (len(tb['fields']), e['name'].lower()), 'kind': 'scalar', 'type': e['type'], 'enum': e['name'], 'required': False,
+                                     'default': enum_values(e)[[m for m, _ in e['members']].index(sym)], 'default_symbol': sym})
+            if rng.random() < 0.4:
+                tb['fields'].insert(rng.randint(0, len(tb['fields'])),
+                                    {'name': 'v%d_%s' % (len(tb['fields']), e['name'].lower()), 'kind': 'vec_scalar', 'type': e['type'], 'enum': e['name'], 'required': False})
     A = copy.deepcopy(B)
+    for e in A['enums']:
+        e['members'] = e['members'][:keep[e['name']]]; e.pop('first_new', None)
     for t in A['tables']:
         k = rng.choice([0, 0, 1, 2, 3])
         keep = max(1, len(t['fields']) - k)
